@@ -66,7 +66,9 @@ def impl_faults(chk, ctx, cases, tag='oracle'):
     return sorted(bad, key=lambda x: len(x[1]))[:5]
 
 
-NAMES = [b'foo', b'bar', b'Baz', b'q', b'main', b'x1']
+NAMES = [b'foo', b'bar', b'Baz', b'q', b'main', b'x1',
+         # names that extend, abbreviate or re-case the built-in "null" context and each other
+         b'nullmodem', b'NULL_ctx', b'nul', b'Null', b'fo', b'foobar']
 TEXTCH = b'abcdefghijklmnopqrstuvwxyzABCDEFGHIJKLMNOPQRSTUVWXYZ0123456789=:,.-_/+@!*()[]{}|;^&?#<>'
 WS = [b'', b'', b' ', b'  ', b'\t', b' \t ', b'\x0b', b'\r']
 
